@@ -8,7 +8,8 @@ register("C16",
          lean_modules=["GtModel.Model.Heap", "GtModel.Proofs.HeapBasic", "GtModel.Proofs.HeapCons", "GtModel.Proofs.HeapExtract",
                        "GtModel.Proofs.HeapCut", "GtModel.Proofs.HeapOps", "GtModel.Props.C16"],
          theorems=[_P + "inv_init", _P + "inv_step", _P + "reachable_inv", _P + "reachable_no_index_error",
-                   _P + "size_eq_live", _P + "peek_is_min", _P + "pop_is_min", _P + "pop_peek_defined",
+                   _P + "size_eq_live", _P + "forest_eq_history", _P + "size_eq_history", _P + "live_eq_history",
+                   _P + "reach_has_history", _P + "peek_is_min", _P + "pop_is_min", _P + "pop_peek_defined",
                    _P + "pop_is_min_int", _P + "pop_is_max_int", _P + "peek_is_min_int", _P + "peek_is_max_int",
                    _P + "reachable_inv_min", _P + "reachable_inv_max",
                    _P + "select_correct", _P + "smallest_correct", _P + "largest_correct",
@@ -20,4 +21,8 @@ register("C16",
                       "decrease_key / remove are only applied to nodes that are in the heap (documented precondition)",
                       "nobody sets HeapNode.deleted on a node that is still in the heap (documented warning)"],
          trusted=["Mathlib.Algebra.Order.Group.Multiset (Multiset + ac_rfl, used only inside proofs)"],
-         partial="")
+         partial="size_eq_live alone is the invariant's field Inv.size re-read (live = the model's own forest); 'reported size = "
+                 "number of live items' with live defined from the HISTORY (pushed and not yet popped / removed / cleared, from "
+                 "the operations' return values) is size_eq_history / forest_eq_history, by induction over all operation "
+                 "sequences.  Not covered: heaps on which remove / decrease_key are applied to nodes that are not in the heap "
+                 "(documented precondition, rejected by the model)")
